@@ -72,7 +72,7 @@ def main():
             'trusted_base': lib.TRUSTED_BASE + res.trusted,
             'theorems': proof['theorems'], 'axioms': proof['axioms'],
             'evaluations': res.evaluations, 'distinct_nontrivial': res.distinct_nontrivial(),
-            'rule': res.rule, 'samples': res.samples[:6], 'tags': res.tags,
+            'rule': res.rule, 'samples': res.samples[:6], 'tags': res.tags, 'runs_per_entry': res.per_entry,
             'per_profile': res.per_profile, 'exhaustive': res.exhaustive,
             'model_vs_impl_compared': res.compared, 'model_vs_impl_disagreements': len(res.corr),
             'known_findings_hit': sorted(seen), 'proof_failures': proof['failed'],
